@@ -310,12 +310,16 @@ class Spec:
     props_module = "Mhd.Props.C01"
     lean_targets = ["Mhd.Props.C01", "drv_mem"]
     required_theorems = ["Mhd.C01.step_wf", "Mhd.C01.run_wf", "Mhd.C01.windows_inside_arena", "Mhd.C01.recv_writes_inside",
-                         "Mhd.C01.reqline_parser_no_fault", "Mhd.C01.field_parser_no_fault", "Mhd.C01.pool_blocks_wf"]
+                         "Mhd.C01.reqline_parser_no_fault", "Mhd.C01.field_parser_no_fault", "Mhd.C01.pool_blocks_wf",
+                         "Mhd.C01.connread_no_fault", "Mhd.C01.connread_parser_view_inside", "Mhd.C01.connread_one_arena",
+                         "Mhd.C01.connread_full_buffer_is_error", "Mhd.C01.grow_stuck_without_guard"]
     trusted_base = ["Lean 4 kernel; propext/Classical.choice/Quot.sound only",
                     "hand-written model lean/Mhd/Model/ConnMem.lean (buffer layer of connection.c over the pool model of C08)",
+                    "hand-written composition lean/Mhd/Model/ConnRead.lean (handle_read / handle_idle INIT..HEADERS_RECEIVED / check_and_grow over ConnMem + the C02 parser models)",
                     "white-box correspondence harness/h_mem.c (calls the real static functions), daemon harness harness/h_daemon.c",
                     "gcc ASan/UBSan as the observer of C-level memory errors"]
-    assumptions = ["parsers' index safety is carried by C02/C03's theorems; C01 composes them with the buffer layer and C08",
+    assumptions = ["request line + header section: composition proved (connread_no_fault: parser preconditions established, every buffer operation accepted); "
+                   "body / chunked decoding / pipelining reset: parsers' index safety still carried by C02/C03's theorems next to the buffer-layer theorem",
                    "C-level UB that is not an out-of-range index (aliasing, alignment) is only observed by the sanitizers",
                    "the daemon runs in external select/epoll mode in this check; threaded modes are C18"]
 
@@ -342,6 +346,10 @@ class Spec:
         memx = importlib.import_module("props._c01mem")
         f2, cov_mem = memx.explore(ctx, self.h_mem, self.driver, boost)
         failures += f2
+        # (a2) composed engine: real get_request_line / get_req_headers / check_and_grow vs Mhd.ConnRead after every chunk
+        readx = importlib.import_module("props._c01read")
+        f3, cov_read = readx.explore(ctx, self.h_mem, self.driver, boost)
+        failures += f3
         # (b) daemon under sanitizers
         nrand = (6000 if ctx.tier == "thorough" else 700) * (3 if boost else 1)
         cases = gen_cases(ctx, nrand)
@@ -364,19 +372,37 @@ class Spec:
             if kind:
                 sig = "conn: " + re.sub(r"\d+", "N", det)[:120]
                 failures.append(vlib.Failure(kind, sig, det + " | " + json.dumps(meta), lines, "conn"))
-        cov = {"evaluations": len(cases) + cov_mem.get("evaluations", 0),
-               "distinct_nontrivial": len(nontriv) + cov_mem.get("distinct_nontrivial", 0),
+        cov = {"evaluations": len(cases) + cov_mem.get("evaluations", 0) + cov_read.get("evaluations", 0),
+               "distinct_nontrivial": len(nontriv) + cov_mem.get("distinct_nontrivial", 0) + cov_read.get("distinct_nontrivial", 0),
                "rule": "daemon cases: distinct scripts in which the handler was called or the client got bytes; "
                        "buffer-layer sequences: distinct op scripts with >= 1 successful buffer operation",
                "samples": [cases[0][0], cases[len(cases) // 2][0][:12]],
                "daemon_cases": len(cases), "daemon_builds": ["asan+ubsan", "asan+ubsan+pool red zones/poisoning"], "daemon_case_distribution": dist,
-               "buffer_layer": cov_mem, "exhaustive": False}
+               "buffer_layer": cov_mem, "composed_connread": cov_read, "exhaustive": False}
         return failures, cov
 
 
 def gen_connmem():
     from extract import c_eval, HEADER, GEN
-    v = c_eval('#include "MHD_config.h"\n#include "connection.c"\n',
+    # behaviour probe (not a text match): does a mandatory try_grow_read_buffer on a full window always add space?
+    # pool 64, increment 7, read buffer 32/32 full, 32 bytes free: small_inc = 7 / 8 = 0 in the code without the guard
+    probe = r"""
+#include "memorypool.c"
+static int probe_grow_min_one (void)
+{
+  struct MHD_Daemon d; struct MHD_Connection c; int r;
+  MHD_init_mem_pools_ ();
+  memset (&d, 0, sizeof(d)); memset (&c, 0, sizeof(c));
+  d.pool_size = 64; d.pool_increment = 7; c.daemon = &d;
+  c.pool = MHD_pool_create (64);
+  c.read_buffer = MHD_pool_allocate (c.pool, 32, false);
+  c.read_buffer_size = 32; c.read_buffer_offset = 32;
+  r = try_grow_read_buffer (&c, true) && (c.read_buffer_size > 32);
+  MHD_pool_destroy (c.pool);
+  return r;
+}
+"""
+    v = c_eval('#include "MHD_config.h"\n#include "connection.c"\n' + probe,
                [("inc", "%d", "(int) MHD_BUF_INC_SIZE"),
                 ("maxh", "%d", "(int) MHD_MAX_REASONABLE_HEADERS_SIZE_"), ("maxt", "%d", "(int) MHD_MAX_REASONABLE_REQ_TARGET_SIZE_"),
                 ("minh", "%d", "(int) MHD_MIN_REASONABLE_HEADERS_SIZE_"), ("mint", "%d", "(int) MHD_MIN_REASONABLE_REQ_TARGET_SIZE_"),
@@ -386,7 +412,9 @@ def gen_connmem():
                 ("sf", "%d", "(int) MHD_PROC_RECV_FOOTERS"),
                 ("c413", "%d", "(int) MHD_HTTP_CONTENT_TOO_LARGE"), ("c414", "%d", "(int) MHD_HTTP_URI_TOO_LONG"),
                 ("c431", "%d", "(int) MHD_HTTP_REQUEST_HEADER_FIELDS_TOO_LARGE"), ("c501", "%d", "(int) MHD_HTTP_NOT_IMPLEMENTED"),
-                ("hostlen", "%d", "(int) MHD_STATICSTR_LEN_ (MHD_HTTP_HEADER_HOST)")],
+                ("hostlen", "%d", "(int) MHD_STATICSTR_LEN_ (MHD_HTTP_HEADER_HOST)"),
+                ("rqhdr", "%d", "(int) sizeof (struct MHD_HTTP_Req_Header)"),
+                ("growmin", "%d", "probe_grow_min_one ()")],
                extra=["-O1", "-ffunction-sections", "-fdata-sections", "-Wl,--gc-sections"])
     out = HEADER % "src/microhttpd/internal.h, connection.c" + "namespace Mhd.Gen.ConnMem\n" \
         + "def bufIncSize : Nat := %s\n" % v["inc"] \
@@ -398,6 +426,10 @@ def gen_connmem():
         + "def httpContentTooLarge : Nat := %s\ndef httpUriTooLong : Nat := %s\n" % (v["c413"], v["c414"]) \
         + "def httpHeaderFieldsTooLarge : Nat := %s\ndef httpNotImplemented : Nat := %s\n" % (v["c431"], v["c501"]) \
         + "def hostNameLen : Nat := %s\n" % v["hostlen"] \
+        + "/-- `sizeof (struct MHD_HTTP_Req_Header)`: one pool allocation per request element -/\ndef reqHeaderSize : Nat := %s\n" % v["rqhdr"] \
+        + "/-- behaviour probe of `try_grow_read_buffer` (pool 64, increment 7, window 32/32 full, required): a mandatory\n" \
+          "    grow always adds at least one byte (the `0 == small_inc` guard, fix F32) -/\n" \
+          "def growMinOne : Bool := %s\n" % ("true" if v["growmin"] == "1" else "false") \
         + "end Mhd.Gen.ConnMem\n"
     return vlib.write_if_changed(os.path.join(GEN, "ConnMem.lean"), out)
 
@@ -410,4 +442,6 @@ def replay(ctx, path):
         print("\n".join(out[-40:])); print(err[-2000:])
         return 1 if rc != 0 else 0
     import importlib
+    if any(l.startswith("crinit") for l in r["input"]):
+        return importlib.import_module("props._c01read").replay_one(sp.h_mem, sp.driver, r["input"])
     return importlib.import_module("props._c01mem").replay_one(sp.h_mem, sp.driver, r["input"])
